@@ -5,6 +5,7 @@ import (
 	"errors"
 	"fmt"
 	"github.com/markusressel/fan2go/internal/ui"
+	"os"
 	"os/exec"
 	"strings"
 	"time"
@@ -16,6 +17,14 @@ import (
 const cmdWaitDelay = 200 * time.Millisecond
 
 func SafeCmdExecution(executable string, args []string, timeout time.Duration) (string, error) {
+	// A bare command name is looked up in $PATH by os/exec, never in the working
+	// directory, so that is the file whose permissions have to be checked.
+	if !strings.ContainsRune(executable, os.PathSeparator) {
+		if resolved, err := exec.LookPath(executable); err == nil {
+			executable = resolved
+		}
+	}
+
 	if _, err := CheckFilePermissionsForExecution(executable); err != nil {
 		return "", fmt.Errorf("cannot execute %s: %s", executable, err)
 	}
